@@ -37,9 +37,10 @@ def mostFrequent : List Int → List (Int × Nat) → Int → Nat → Int
       let (hist', c) := histInc hist w
       if c > cnt then mostFrequent ws hist' w c else mostFrequent ws hist' best cnt
 
-/-- `selectWidths`: `(defaultWidth, nominalWidth)`; the nominal width is `none` when no glyph
-differs from the default width (the Go value is then `+Inf`, converted to an
-implementation-defined int32; no charstring refers to it). -/
+/-- `selectWidths`: `(defaultWidth, nominalWidth)`; when no glyph differs from the default width
+the nominal width is 0 (after the repair: it used to be `+Inf`, stored through the
+implementation-defined conversion `int32(+Inf)`).  The `Option` is kept for the callers; the
+result is always `some`. -/
 def selectWidths (ws : List Int) : Int × Option Int :=
   match ws with
   | [] => (0, some 0)
@@ -48,7 +49,7 @@ def selectWidths (ws : List Int) : Int × Option Int :=
     let d := mostFrequent ws [] 0 0
     let others := ws.filter (· ≠ d)
     match others with
-    | [] => (d, none)
+    | [] => (d, some 0)      -- all glyphs use the default width: nominal width 0 (unused)
     | o :: os =>
       let sum := others.foldl (· + ·) 0
       let mn := os.foldl min o
